@@ -1144,7 +1144,7 @@ fn main() {
                 cases.push(Case { ex: Ex::Op("clamp", vec![Ex::lit(&x), Ex::lit(&lo), Ex::lit(&hi)]), opaque, stream: "clamp", oracle: true, typed: false });
             }
             _ => {
-                let mut x = gen_num(&mut r, 0, 35);
+                let mut x = gen_num(&mut r, 4, 35);
                 if r.chance(1, 4) {
                     // rounding family near halves and integers
                     let k = BigInt::from(r.range(-6, 6));
@@ -1275,37 +1275,27 @@ fn main() {
         laws.push(Law { name, idx, operands: vec![x, y, z] });
     }
 
-    // --- stream 5: a nil operand to every unary operation (one program each: a runtime error
-    //     must not hide the other results). Property: nil, never a runtime error.
+    // --- stream 5: a nil operand to EVERY unary and binary operation (each position, both call
+    //     modes), plus clamp. Property: nil, never a runtime error. (F20, repaired by 6a46ae1: nil
+    //     used to fall into the trailing type pattern of the unary operations.)
     {
-        let mut fails: Vec<String> = vec![];
-        let mut first_replay = None;
-        for op in UN_OPS.iter().chain(["sqrt"].iter()) {
-            for opaque in [false, true] {
-                let ex = Ex::Op(op, vec![Ex::Lit(Nm::Nil)]);
-                let src = ex.qv(opaque);
-                let got = run_all(std::slice::from_ref(&src), 1, &b, &mut ev).remove(0);
-                let m = model_eval(&ex, &mut model);
-                ev.case(&(ex.key(), opaque), true);
-                ev.hit("stream:nil-unary");
-                ev.hit(&format!("nil-unary:{}", if got == "nil" { "nil" } else { "not-nil" }));
-                if m != "nil" {
-                    ev.violation(&format!("op={op} kind=model-nil-propagation"),
-                        &format!("model answers {m} for `{src}`"),
-                        json!({"broken": "C20.nil_propagates vs driver", "quiver": src, "model": m}), false);
-                }
-                if got != "nil" {
-                    fails.push(format!("`{src}` -> {got}"));
-                    if first_replay.is_none() {
-                        first_replay = Some(json!({"quiver": src, "impl": got, "model": m, "host_reference": "nil"}));
-                    }
+        let partners = [Nm::Int(BigInt::from(3)), Nm::Rat(BigInt::from(-1), BigInt::from(2)),
+            Nm::Surd(Co::Int(BigInt::one()), Co::Int(BigInt::one()), BigInt::from(2)), Nm::Nil];
+        for opaque in [false, true] {
+            for op in UN_OPS.iter().chain(["sqrt"].iter()) {
+                cases.push(Case { ex: Ex::Op(op, vec![Ex::Lit(Nm::Nil)]), opaque, stream: "nil-operand", oracle: true, typed: false });
+            }
+            for op in ["add", "sub", "mul", "div", "min", "max", "eq?", "lt?", "le?", "gt?", "ge?"] {
+                for p in &partners {
+                    cases.push(Case { ex: Ex::op2(op, Ex::Lit(Nm::Nil), Ex::lit(p)), opaque, stream: "nil-operand", oracle: true, typed: false });
+                    cases.push(Case { ex: Ex::op2(op, Ex::lit(p), Ex::Lit(Nm::Nil)), opaque, stream: "nil-operand", oracle: true, typed: false });
                 }
             }
-        }
-        if !fails.is_empty() {
-            ev.violation("kind=nil-operand-unary-op",
-                &format!("a nil operand does not propagate through unary %num operations (must be nil, never a runtime error): {}", fails.join("; ")),
-                json!({"first": first_replay, "all": fails}), true);
+            for k in 0..3 {
+                let mut args = vec![Ex::lit(&partners[0]), Ex::lit(&partners[1]), Ex::lit(&partners[2])];
+                args[k] = Ex::Lit(Nm::Nil);
+                cases.push(Case { ex: Ex::Op("clamp", args), opaque, stream: "nil-operand", oracle: true, typed: false });
+            }
         }
     }
 
@@ -1370,7 +1360,12 @@ fn main() {
         }
         // oracle 1: never a runtime error / panic on canonical operands (also for nil operands)
         if c.oracle && (res_kind == "runtime-error" || res_kind == "other") {
-            ev.violation(&format!("op={op} kind=runtime-error"),
+            let sig = if lits.iter().any(|n| **n == Nm::Nil) && c.ex.depth() == 1 && lits.len() == 1 {
+                "kind=nil-operand-unary-op".to_string()
+            } else {
+                format!("op={op} kind=runtime-error")
+            };
+            ev.violation(&sig,
                 &format!("`{}` ends in {got} instead of a number or nil", exprs[i]), replay.clone(), true);
             continue;
         }
